@@ -103,6 +103,10 @@ def gen_harnesses(tier, seed):
         src = gen.one_position_module(methods, list(range(-2, 10)) + [True, False, "a", "b", "ab", "", "{", "{{", "}", "{}", "{x}", "a{", "'", '"', "\\", "%s"], checks)
         out.append((f"c11_lit_{i}", src, dict(family="Literal", methods=[{k: v for k, v in m.items()} for m in methods])))
 
+    # Literal types at DIFFERENT positions of the methods of one rank: f(x: Literal[a], y: int) next to f(x: int, y: Literal[b])
+    for i, (a_, b_, prio) in enumerate(((1, 2, (0, 0, 0)), (0, 0, (0, 0, 0)), (3, 1, (1, 0, 0)), (2, 2, (0, 0, 1)))):
+        out.append((f"c11_lit_two_positions_{i}", gen.two_position_module(f"x == {a_}", f"x == {b_}", prio, anns=(f"Literal[{a_}]", f"Literal[{b_}]")),
+                    dict(family="Literal types at different positions", values=[a_, b_], prio=list(prio))))
     # fixed literal sets: values that are == but of different types (bool / int / float), in both orders
     for i, vals in enumerate(([False, 0], [0, False], [True, 1], [1, True, "a"], [0], [True])):
         methods = [dict(kind="ann", ann=lit_ann(vals), bound=lit_bound(vals), prio=0,
